@@ -60,7 +60,9 @@ try:
             print(s, cid, "rc=%d" % rc, [(k.get("kind"), k.get("concrete_input")) for k in reports], "%.0fs" % (time.time() - t0), flush=True)
         sh("git checkout -- . && git clean -fdq", cwd=wt)
         merged = json.load(open(rp)) if os.path.exists(rp) else {}
-        merged[s] = {"baseline_tests_pass": tests_ok, "checks": det, "alarms": sorted(c for c, d in det.items() if d["exit"] != 0)}
+        allc = dict(merged.get(s, {}).get("checks", {}))
+        allc.update(det)      # a run restricted with --checks= refreshes those entries only
+        merged[s] = {"baseline_tests_pass": tests_ok, "checks": allc, "alarms": sorted(c for c, d in allc.items() if d["exit"] != 0)}
         json.dump(merged, open(rp, "w"), indent=1)
 finally:
     sh("git -C /repo worktree remove --force %s" % wt)
